@@ -4,10 +4,12 @@
    Each property contributes `handlers` in its own Driver/<Area>.lean; add one import and
    one `++` line here. -/
 import Driver.Riff
+import Driver.Conf
 open Driver
 
 def allHandlers : List Handler :=
   RiffD.handlers
+  ++ ConfD.handlers
 
 def answerModel (cmd arg : String) : String :=
   match allHandlers.find? (·.cmd == cmd) with
